@@ -3,6 +3,7 @@
 From Coq Require Import List ZArith Bool Lia Permutation Sorted Arith.
 Import ListNotations.
 Require Import Pyrefact.SchedModel Pyrefact.SchedProofs Pyrefact.Splice Pyrefact.SubstModel.
+Require Pyrefact.IgnoreModel Pyrefact.IgnoreProofs Pyrefact.SchedApplyModel.
 Open Scope Z_scope.
 
 (* ======================================================================================== *)
@@ -473,10 +474,41 @@ Qed.
 
 End Segments.
 
+(* ---- the lines that carry an ignore comment lie inside the text ---- *)
+Lemma ignore_entry_ok (src : text) (coms : option (list nat)) (e : range * IgnoreModel.text) :
+  In e (ignore_entries src coms) ->
+  (0 <= fst (fst e))%Z /\ (fst (fst e) <= snd (fst e))%Z /\ (snd (fst e) <= Z.of_nat (length src))%Z.
+Proof.
+  intros H. unfold ignore_entries in H.
+  destruct (IgnoreProofs.ignore_entries_in _ _ _ H) as [Hin _].
+  destruct e as [r l].
+  destruct (IgnoreProofs.line_ranges_slice _ _ _ _ Hin) as (X & Y & Hc & Hs & He).
+  rewrite IgnoreProofs.split_lines_concat in Hc.
+  assert (Hlen : length src = length (X ++ l ++ Y)).
+  { rewrite <- Hc. unfold to_n. rewrite map_length. reflexivity. }
+  rewrite !app_length in Hlen. cbn [fst snd]. lia.
+Qed.
+
+Lemma fold_left_map_filter {A B C} (g : C -> B -> C) (h : A -> B) (p : A -> bool) (l : list A) :
+  forall a, fold_left g (map h (filter p l)) a = fold_left (fun a x => if p x then g a (h x) else a) l a.
+Proof.
+  induction l as [|x l IH]; intros a; [reflexivity|].
+  cbn [filter]. destruct (p x) eqn:E; cbn [map fold_left]; rewrite E; apply IH.
+Qed.
+
+Lemma filter_filter' {A} (p q : A -> bool) (l : list A) :
+  filter p (filter q l) = filter (fun x => q x && p x) l.
+Proof.
+  induction l as [|x l IH]; [reflexivity|].
+  cbn [filter]. destruct (q x); cbn [andb filter]; [destruct (p x); rewrite IH; reflexivity | exact IH].
+Qed.
+
 Section TextProofs.
 Variable valid : text -> bool.
+Variable equiv : text -> text -> bool.
 Variable wrap : range -> bool.
 Variable mlstr : text -> bool.
+Variable coms : option (list nat).
 
 Definition nat_range (r : range) : nat * nat := (Z.to_nat (fst r), Z.to_nat (snd r)).
 Definition range_ok (len : nat) (r : range) : Prop :=
@@ -499,18 +531,15 @@ Proof.
   eexists. reflexivity.
 Qed.
 
-(* whatever _do_rewrite decides (skip, plain candidate, "pass", re-indented candidate), the result is
-   the current text with the range replaced by SOME text *)
+(* whatever _do_rewrite decides (equal text, plain candidate, parentheses, padding, "pass", re-indented
+   candidate), the result is the current text with the range replaced by SOME text *)
 Lemma do_rewrite_splice (cur : text) (r : range) (n : text) :
   Z.to_nat (fst r) <= Z.to_nat (snd r) ->
-  exists n', do_rewrite valid wrap mlstr cur (r, n) = splice Z cur r n'.
+  exists n', do_rewrite valid equiv wrap cur (r, n) = splice Z cur r n'.
 Proof.
   intros H. unfold do_rewrite.
   destruct (text_eqb n (slice cur r)); [exists (slice cur r); symmetry; apply splice_slice; exact H|].
-  destruct (ignored (ignore_lines cur) r); [exists (slice cur r); symmetry; apply splice_slice; exact H|].
-  destruct (ws_only_change n (slice cur r) && negb (mlstr (slice cur r) || mlstr n));
-    [exists (slice cur r); symmetry; apply splice_slice; exact H|].
-  generalize (wrapped wrap r n). intros n1.
+  generalize (pad_braces valid equiv cur r (wrapped wrap r n)). intros n1.
   match goal with |- context [first_valid _ _ _ _ _ ?c] => set (choice := c) end.
   assert (Hc : exists n', choice = splice Z cur r n').
   { unfold choice. destruct (_ || _); [eexists; reflexivity|].
@@ -518,18 +547,36 @@ Proof.
   destruct (_ && _); [apply first_valid_splice; exact Hc | exact Hc].
 Qed.
 
-Lemma do_all_splices (rws : list (range * text)) :
-  Forall (fun rw => Z.to_nat (fst (fst rw)) <= Z.to_nat (snd (fst rw))) rws ->
-  forall src, exists rws', map fst rws' = map fst rws /\ do_all valid wrap mlstr src rws = apply_all Z src rws'.
+(* one turn of the loop of _apply_rewrites: a member of a refused transaction and a no-op member (both judged
+   on the ORIGINAL source src0) leave the text alone, every other member goes through _do_rewrite *)
+Definition step (src0 : text) (ks : list tkey) (cur : text) (e : entry) : text :=
+  if negb (existsb (key_eqb (fst e)) ks) && negb (noop src0 e)
+  then do_rewrite valid equiv wrap cur (rrng (snd e), rnew (snd e))
+  else cur.
+
+Lemma candidate_as_steps (src0 : text) (sched : list entry) :
+  do_all valid equiv wrap src0 (sched_pairs (applicable mlstr src0 sched))
+  = fold_left (step src0 (SchedApplyModel.refused_keys text (ws_refused mlstr src0) sched)) sched src0.
 Proof.
-  induction 1 as [|[r n] tl Hr Htl IH]; intros src.
+  unfold do_all, sched_pairs, applicable, SchedApplyModel.surviving. cbv zeta.
+  rewrite filter_filter', fold_left_map_filter. reflexivity.
+Qed.
+
+Lemma steps_splices (src0 : text) (ks : list tkey) (l : list entry) :
+  Forall (fun e : entry => Z.to_nat (fst (rrng (snd e))) <= Z.to_nat (snd (rrng (snd e)))) l ->
+  forall cur, exists rws', map fst rws' = map (fun e : entry => rrng (snd e)) l
+                          /\ fold_left (step src0 ks) l cur = apply_all Z cur rws'.
+Proof.
+  induction 1 as [|e tl Hr Htl IH]; intros cur.
   - exists []. split; reflexivity.
-  - cbn [do_all fold_left]. destruct (do_rewrite_splice src r n Hr) as [n' E].
-    destruct (IH (do_rewrite valid wrap mlstr src (r, n))) as [rws' [Em Ea]].
-    exists ((r, n') :: rws'). split; [cbn [map fst]; rewrite Em; reflexivity|].
-    change (fold_left (do_rewrite valid wrap mlstr) tl (do_rewrite valid wrap mlstr src (r, n)))
-      with (do_all valid wrap mlstr (do_rewrite valid wrap mlstr src (r, n)) tl).
-    rewrite Ea. transitivity (apply_all Z (splice Z src r n') rws'); [|reflexivity].
+  - cbn [fold_left].
+    assert (E : exists n', step src0 ks cur e = splice Z cur (rrng (snd e)) n').
+    { unfold step. destruct (_ && _); [apply do_rewrite_splice; exact Hr|].
+      exists (slice cur (rrng (snd e))). symmetry. apply splice_slice. exact Hr. }
+    destruct E as [n' E].
+    destruct (IH (step src0 ks cur e)) as [rws' [Em Ea]].
+    exists ((rrng (snd e), n') :: rws'). split; [cbn [map fst]; rewrite Em; reflexivity|].
+    rewrite Ea. transitivity (apply_all Z (splice Z cur (rrng (snd e)) n') rws'); [|reflexivity].
     f_equal. exact E.
 Qed.
 
@@ -542,13 +589,13 @@ Variable src : text.
 Variable items : list (range * text).
 Hypothesis items_ok : Forall (fun it => range_ok (length src) (fst it)) items.
 
-Let S := subn_sched_text src items.
+Let S := subn_sched_text src coms items.
 Let ranges := map (fun e : tkey * rewrite text => rrng (snd e)) S.
 
 Lemma ranges_ok : forall r, In r ranges -> range_ok (length src) r.
 Proof.
   intros r Hr. unfold ranges in Hr. apply in_map_iff in Hr. destruct Hr as [e [<- He]].
-  apply (scheduled_from_items text text_eqb text_cmp (ignore_lines src) items) in He.
+  apply (scheduled_from_items text text_eqb text_cmp (sched_ilines src coms) items) in He.
   rewrite Forall_forall in items_ok. apply (items_ok _ He).
 Qed.
 
@@ -562,10 +609,10 @@ Lemma ranges_sorted : StronglySorted lexk (rev (map nat_range ranges)).
 Proof.
   rewrite <- map_rev. unfold ranges. rewrite <- map_rev.
   pose proof (sort_desc_sorted text text_cmp
-                (accepted_unsorted text text_eqb (ignore_lines src) [subn_yield text items])) as Hs.
-  fold (schedule text text_eqb text_cmp (ignore_lines src) [subn_yield text items]) in Hs.
-  fold (subn_schedule text text_eqb text_cmp (ignore_lines src) items) in Hs.
-  fold (subn_sched_text src items) in Hs. fold S in Hs.
+                (accepted_unsorted text text_eqb (sched_ilines src coms) [subn_yield text items])) as Hs.
+  fold (schedule text text_eqb text_cmp (sched_ilines src coms) [subn_yield text items]) in Hs.
+  fold (subn_schedule text text_eqb text_cmp (sched_ilines src coms) items) in Hs.
+  fold (subn_sched_text src coms items) in Hs. fold S in Hs.
   apply SS_rev in Hs. rewrite map_map.
   eapply SS_map; [|exact Hs].
   intros a b Ha Hb Hab. cbn beta in Hab. unfold rge in Hab. apply range_cmp_ge in Hab.
@@ -579,9 +626,9 @@ Qed.
 Lemma ranges_disjoint : ForallOrdPairs novk (rev (map nat_range ranges)).
 Proof.
   rewrite <- map_rev. unfold ranges. rewrite <- map_rev, map_map.
-  pose proof (schedule_disjoint text text_eqb text_cmp (ignore_lines src) [subn_yield text items]) as Hd.
-  fold (subn_schedule text text_eqb text_cmp (ignore_lines src) items) in Hd.
-  fold (subn_sched_text src items) in Hd. fold S in Hd.
+  pose proof (schedule_disjoint text text_eqb text_cmp (sched_ilines src coms) [subn_yield text items]) as Hd.
+  fold (subn_schedule text text_eqb text_cmp (sched_ilines src coms) items) in Hd.
+  fold (subn_sched_text src coms items) in Hd. fold S in Hd.
   assert (Hd' : ForallOrdPairs (disjoint_entries text) (rev S)).
   { eapply FOP_perm; [apply disjoint_sym | apply Permutation_rev | exact Hd]. }
   eapply FOP_map; [|exact Hd'].
@@ -604,27 +651,27 @@ Qed.
 
 Definition nkey (r : nrw Z) : nat * nat := (nstart Z r, nend Z r).
 
-(* T14.4: the text after the chain of _do_rewrite calls is the simultaneous splice of the source at
-   the scheduled ranges: everything outside them is the source, verbatim and in order *)
+(* T14.4: the text after the loop of _apply_rewrites (refused transactions, skipped no-op members and the chain
+   of _do_rewrite calls) is the simultaneous splice of the source at the scheduled ranges: everything outside
+   them is the source, verbatim and in order *)
 Theorem candidate_is_simultaneous_splice :
   exists asc : list (nrw Z),
     map nkey asc = rev (map nat_range ranges)
     /\ chain_ok Z (length src) 0 asc
-    /\ subn_candidate valid wrap mlstr src items = build Z 0 src asc.
+    /\ subn_candidate valid equiv wrap mlstr src coms items = build Z 0 src asc.
 Proof.
-  unfold subn_candidate. fold S.
-  assert (Hle : Forall (fun rw : range * text => Z.to_nat (fst (fst rw)) <= Z.to_nat (snd (fst rw)))
-                       (sched_pairs S)).
-  { apply Forall_forall. intros [r n] Hin. unfold sched_pairs in Hin. apply in_map_iff in Hin.
-    destruct Hin as [e [E He]]. inversion E; subst. cbn [fst snd].
+  unfold subn_candidate. fold S. rewrite candidate_as_steps.
+  assert (Hle : Forall (fun e : entry => Z.to_nat (fst (rrng (snd e))) <= Z.to_nat (snd (rrng (snd e)))) S).
+  { apply Forall_forall. intros e He.
     assert (Hr : range_ok (length src) (rrng (snd e))) by (apply entry_ok; exact He).
     unfold range_ok in Hr. lia. }
-  destruct (do_all_splices (sched_pairs S) Hle src) as [rws' [Em Ea]].
+  destruct (steps_splices src (SchedApplyModel.refused_keys text (ws_refused mlstr src) S) S Hle src)
+    as [rws' [Em Ea]].
   exists (rev (map (to_nrw Z) rws')).
   assert (Hk : map nkey (rev (map (to_nrw Z) rws')) = rev (map nat_range ranges)).
   { rewrite map_rev, map_map. f_equal.
     transitivity (map nat_range (map fst rws')); [rewrite map_map; reflexivity|].
-    rewrite Em. unfold sched_pairs, ranges. rewrite !map_map. reflexivity. }
+    rewrite Em. reflexivity. }
   assert (Hsorted : StronglySorted (lex_le Z) (rev (map (to_nrw Z) rws'))).
   { pose proof ranges_sorted as H. rewrite <- Hk in H. apply SS_unmap in H. exact H. }
   assert (Hdisj : ForallOrdPairs (fun a b => noverlaps Z a b = false) (rev (map (to_nrw Z) rws'))).
@@ -641,26 +688,32 @@ Qed.
 (* T14.5 (text): a physical line that carries an ignore comment is a contiguous, unchanged piece of
    the text after all rewrites (whatever was rewritten around it) *)
 Theorem ignored_line_verbatim :
-  forall l, In l (ignore_lines src) -> range_ok (length src) l ->
-  exists pre post, subn_candidate valid wrap mlstr src items = pre ++ slice src l ++ post.
+  forall l, In l (ignore_lines src coms) ->
+  exists pre post, subn_candidate valid equiv wrap mlstr src coms items = pre ++ slice src l ++ post.
 Proof.
-  intros l Hl Hok.
+  intros l Hl. unfold ignore_lines in Hl. apply in_map_iff in Hl. destruct Hl as [en [El Hen]].
+  pose proof (ignore_entry_ok src coms en Hen) as Hok. rewrite El in Hok.
   destruct candidate_is_simultaneous_splice as [asc [Hk [Hc E]]].
-  rewrite E, slice_seg. unfold range_ok in Hok.
+  rewrite E, slice_seg.
   apply (build_keeps Z src asc 0 (Z.to_nat (fst l)) (Z.to_nat (snd l)) Hc); try lia.
   intros r Hr.
   assert (Hin : In (nkey r) (rev (map nat_range ranges))) by (rewrite <- Hk; apply in_map; exact Hr).
   apply in_rev in Hin. apply in_map_iff in Hin. destruct Hin as [rz [Ez Hz]].
   pose proof (ranges_ok rz Hz) as Rz. unfold range_ok in Rz.
   unfold ranges in Hz. apply in_map_iff in Hz. destruct Hz as [e [Ee He]].
-  pose proof (scheduled_not_ignored text text_eqb text_cmp (ignore_lines src) items e He) as Hni.
+  pose proof (scheduled_not_ignored text text_eqb text_cmp (sched_ilines src coms) items e He) as Hni.
   rewrite Ee in Hni. unfold ignored in Hni.
-  rewrite existsb_false_iff in Hni. specialize (Hni l Hl). unfold touches_line, overlaps in Hni.
+  rewrite existsb_false_iff in Hni.
+  assert (Hsl : In (sched_line en) (sched_ilines src coms)) by (unfold sched_ilines; apply in_map; exact Hen).
+  specialize (Hni _ Hsl). unfold touches_line, overlaps, sched_line in Hni. rewrite El in Hni. cbn [fst snd] in Hni.
   unfold nkey, nat_range in Ez. inversion Ez as [[E1 E2]].
   destruct (fst rz =? snd rz)%Z eqn:Eq.
   - apply Z.eqb_eq in Eq. apply andb_false_iff in Hni.
-    destruct Hni as [Hni|Hni]; [apply Z.leb_gt in Hni | apply Z.ltb_ge in Hni]; lia.
-  - apply andb_false_iff in Hni. destruct Hni as [Hni|Hni]; apply Z.ltb_ge in Hni; lia.
+    destruct (IgnoreModel.terminated (snd en));
+      (destruct Hni as [Hni|Hni]; [apply Z.leb_gt in Hni | apply Z.ltb_ge in Hni]; lia).
+  - apply andb_false_iff in Hni.
+    destruct (IgnoreModel.terminated (snd en));
+      (destruct Hni as [Hni|Hni]; apply Z.ltb_ge in Hni; lia).
 Qed.
 
 End TextProofs.
@@ -678,32 +731,20 @@ Qed.
 Theorem lines_partition (s : text) : concat (lines_ke s) = s.
 Proof. unfold lines_ke. rewrite lines_ke_concat. reflexivity. Qed.
 
-Lemma ignore_lines_from_ok (ls : list text) : forall pos l,
-  (0 <= pos)%Z -> In l (ignore_lines_from pos ls) ->
-  (pos <= fst l)%Z /\ (fst l <= snd l)%Z /\ (snd l <= pos + Z.of_nat (length (concat ls)))%Z.
+Theorem ignore_lines_ok (src : text) (coms : option (list nat)) :
+  forall l, In l (ignore_lines src coms) -> range_ok (length src) l.
 Proof.
-  induction ls as [|x tl IH]; intros pos l Hp Hl; [destruct Hl|].
-  cbn [ignore_lines_from] in Hl. cbn [concat]. rewrite app_length.
-  destruct (has_ignore x).
-  - destruct Hl as [<-|Hl]; [cbn [fst snd]; lia|].
-    apply IH in Hl; lia.
-  - apply IH in Hl; lia.
-Qed.
-
-Theorem ignore_lines_ok (src : text) :
-  forall l, In l (ignore_lines src) -> range_ok (length src) l.
-Proof.
-  intros l Hl. unfold ignore_lines in Hl.
-  apply ignore_lines_from_ok in Hl; [|lia]. rewrite lines_partition in Hl.
-  unfold range_ok. lia.
+  intros l Hl. unfold ignore_lines in Hl. apply in_map_iff in Hl. destruct Hl as [e [<- He]].
+  exact (ignore_entry_ok src coms e He).
 Qed.
 
 (* ---- T14.1: no match => the source, byte for byte ---- *)
-Theorem no_match_identity (valid : text -> bool) (wrap : range -> bool) (mlstr : text -> bool)
-        (restore : text -> text -> text) (src tmpl : text) (count : Z) :
+Theorem no_match_identity (valid : text -> bool) (equiv : text -> text -> bool) (wrap : range -> bool)
+        (mlstr : text -> bool) (restore : text -> text -> text) (src tmpl : text) (coms : option (list nat))
+        (count : Z) :
   (forall s, restore s s = s) ->
   subn_items src tmpl count [] = Some []
-  /\ subn_output valid wrap mlstr restore src [] = src.
+  /\ subn_output valid equiv wrap mlstr restore src coms [] = src.
 Proof.
   intros Hr. split.
   - unfold subn_items, take_count. destruct (Z.ltb 0 count); cbn [firstn items_of];
@@ -712,23 +753,27 @@ Proof.
 Qed.
 
 (* the output of subn is the source (rollback) or the restored candidate *)
-Theorem output_cases (valid : text -> bool) (wrap : range -> bool) (mlstr : text -> bool)
-        (restore : text -> text -> text) (src : text) (items : list (range * text)) :
-  subn_output valid wrap mlstr restore src items = src
-  \/ subn_output valid wrap mlstr restore src items = restore src (subn_candidate valid wrap mlstr src items).
+Theorem output_cases (valid : text -> bool) (equiv : text -> text -> bool) (wrap : range -> bool)
+        (mlstr : text -> bool) (restore : text -> text -> text) (src : text) (coms : option (list nat))
+        (items : list (range * text)) :
+  subn_output valid equiv wrap mlstr restore src coms items = src
+  \/ subn_output valid equiv wrap mlstr restore src coms items
+     = restore src (subn_candidate valid equiv wrap mlstr src coms items).
 Proof.
-  unfold subn_output. destruct (valid (subn_candidate valid wrap mlstr src items)); cbn [negb]; [|left; reflexivity].
-  destruct (valid (restore src (subn_candidate valid wrap mlstr src items))); cbn [negb]; [right|left]; reflexivity.
+  unfold subn_output.
+  destruct (valid (subn_candidate valid equiv wrap mlstr src coms items)); cbn [negb]; [|left; reflexivity].
+  destruct (valid (restore src (subn_candidate valid equiv wrap mlstr src coms items))); cbn [negb];
+    [right|left]; reflexivity.
 Qed.
 
-(* T14.5 (text), without side condition: the ranges of ignore_lines always lie inside the text *)
-Theorem ignored_lines_survive (valid : text -> bool) (wrap : range -> bool) (mlstr : text -> bool)
-        (src : text) (items : list (range * text)) :
+(* T14.5 (text), without side condition on the lines: the ranges of ignore_lines always lie inside the text *)
+Theorem ignored_lines_survive (valid : text -> bool) (equiv : text -> text -> bool) (wrap : range -> bool)
+        (mlstr : text -> bool) (src : text) (coms : option (list nat)) (items : list (range * text)) :
   Forall (fun it => range_ok (length src) (fst it)) items ->
-  forall l, In l (ignore_lines src) ->
-  exists pre post, subn_candidate valid wrap mlstr src items = pre ++ slice src l ++ post.
+  forall l, In l (ignore_lines src coms) ->
+  exists pre post, subn_candidate valid equiv wrap mlstr src coms items = pre ++ slice src l ++ post.
 Proof.
-  intros Hok l Hl. apply ignored_line_verbatim; [exact Hok | exact Hl | apply ignore_lines_ok; exact Hl].
+  intros Hok l Hl. apply ignored_line_verbatim; [exact Hok | exact Hl].
 Qed.
 
 (* the scheduled rewrites are pairwise non-overlapping (instance of T10.2) *)
@@ -827,35 +872,70 @@ Proof.
   - intros l Hl. apply filter_In in Hl. apply rstrip_keeps_indentation, Hl.
 Qed.
 
-(* the complete decision of _do_rewrite: it returns the text unchanged in exactly three situations,
-   otherwise it splices in the replacement (with the call's parentheses put back when it replaces a
-   generator that shared them), or "pass" for an empty one, or a re-indented copy *)
-Theorem do_rewrite_decision (valid : text -> bool) (wrap : range -> bool) (mlstr : text -> bool)
+(* the decision of _apply_rewrites, taken on the ORIGINAL source: a scheduled rewrite reaches _do_rewrite iff no
+   member of its transaction is a whitespace-only change (a difference, but only in blank lines and trailing
+   blanks outside string literals) and its own replacement differs from the text it replaces *)
+Theorem ws_refused_spec (mlstr : text -> bool) (src : text) (e : entry) :
+  let code := slice src (rrng (snd e)) in
+  let n := rnew (snd e) in
+  ws_refused mlstr src e = true
+  <-> (n <> code /\ sig_lines n = sig_lines code /\ mlstr code = false /\ mlstr n = false).
+Proof.
+  cbv zeta. unfold ws_refused, same_significant.
+  rewrite !andb_true_iff, negb_true_iff, ws_only_change_spec, negb_true_iff, orb_false_iff.
+  split.
+  - intros [H1 [H2 [H3 H4]]]. repeat split; try assumption.
+    intros E. apply text_eqb_spec in E. congruence.
+  - intros [H1 [H2 [H3 H4]]]. repeat split; try assumption.
+    destruct (text_eqb (rnew (snd e)) (slice src (rrng (snd e)))) eqn:E; [|reflexivity].
+    apply text_eqb_spec in E. contradiction.
+Qed.
+
+Theorem applicable_spec (mlstr : text -> bool) (src : text) (sched : list entry) (e : entry) :
+  In e (applicable mlstr src sched)
+  <-> (In e sched
+       /\ (forall e', In e' sched -> fst e' = fst e -> ws_refused mlstr src e' = false)
+       /\ rnew (snd e) <> slice src (rrng (snd e))).
+Proof.
+  unfold applicable, SchedApplyModel.surviving, SchedApplyModel.refused_keys. cbv zeta.
+  rewrite !filter_In, !negb_true_iff. unfold noop. split.
+  - intros [[H1 H2] H3]. split; [exact H1|]. split.
+    + intros e' He' Hk. destruct (ws_refused mlstr src e') eqn:E; [|reflexivity].
+      exfalso. rewrite existsb_false_iff in H2.
+      specialize (H2 (fst e')). rewrite Hk in H2.
+      assert (Hin : In (fst e) (map fst (filter (ws_refused mlstr src) sched))).
+      { rewrite <- Hk. apply in_map. apply filter_In. split; assumption. }
+      specialize (H2 Hin). unfold key_eqb in H2. rewrite !Z.eqb_refl in H2. discriminate.
+    + intros E. apply text_eqb_spec in E. congruence.
+  - intros [H1 [H2 H3]]. split; [split; [exact H1|]|].
+    + rewrite existsb_false_iff. intros k Hk. apply in_map_iff in Hk. destruct Hk as [e' [<- He']].
+      apply filter_In in He'. destruct He' as [He' Hr].
+      destruct (key_eqb (fst e) (fst e')) eqn:E; [|reflexivity].
+      exfalso. unfold key_eqb in E. apply andb_true_iff in E. destruct E as [E1 E2].
+      apply Z.eqb_eq in E1, E2.
+      assert (Hk : fst e' = fst e) by (destruct (fst e), (fst e'); cbn [fst snd] in *; congruence).
+      rewrite (H2 e' He' Hk) in Hr. discriminate.
+    + destruct (text_eqb (rnew (snd e)) (slice src (rrng (snd e)))) eqn:E; [|reflexivity].
+      apply text_eqb_spec in E. contradiction.
+Qed.
+
+(* the complete decision of _do_rewrite(scheduled=True): it returns the text unchanged exactly when the
+   replacement is the text that is already there; otherwise it splices in the replacement (with the call's
+   parentheses put back when it replaces a generator that shared them, padded with blanks next to the brace
+   of an f-string field), or "pass" for an empty one, or a re-indented copy *)
+Theorem do_rewrite_decision (valid : text -> bool) (equiv : text -> text -> bool) (wrap : range -> bool)
         (cur : text) (r : range) (n : text) :
   let code := slice cur r in
-  (n = code \/ ignored (ignore_lines cur) r = true
-   \/ (sig_lines n = sig_lines code /\ mlstr code = false /\ mlstr n = false) ->
-     do_rewrite valid wrap mlstr cur (r, n) = cur)
-  /\ (n <> code -> ignored (ignore_lines cur) r = false ->
-      ~ (sig_lines n = sig_lines code /\ mlstr code = false /\ mlstr n = false) ->
-      exists n', In n' (candidates (wrapped wrap r n))
-                 /\ do_rewrite valid wrap mlstr cur (r, n) = splice Z cur r n').
+  (n = code -> do_rewrite valid equiv wrap cur (r, n) = cur)
+  /\ (n <> code ->
+      exists n', In n' (candidates (pad_braces valid equiv cur r (wrapped wrap r n)))
+                 /\ do_rewrite valid equiv wrap cur (r, n) = splice Z cur r n').
 Proof.
   intros code. unfold do_rewrite. fold code. split.
-  - intros H. destruct (text_eqb n code) eqn:E1; [reflexivity|].
-    destruct (ignored (ignore_lines cur) r) eqn:E2; [reflexivity|].
-    destruct (ws_only_change n code && negb (mlstr code || mlstr n)) eqn:E3; [reflexivity|].
-    exfalso. destruct H as [H|[H|[H [H4 H5]]]].
-    + apply text_eqb_spec in H. congruence.
-    + discriminate.
-    + apply ws_only_change_spec in H. rewrite H, H4, H5 in E3. discriminate.
-  - intros H1 H2 H3.
+  - intros H. apply text_eqb_spec in H. rewrite H. reflexivity.
+  - intros H1.
     destruct (text_eqb n code) eqn:E1; [apply text_eqb_spec in E1; contradiction|].
-    rewrite H2.
-    destruct (ws_only_change n code && negb (mlstr code || mlstr n)) eqn:E3.
-    { exfalso. apply H3. apply andb_true_iff in E3. destruct E3 as [E3 E4].
-      apply ws_only_change_spec in E3. apply negb_true_iff, orb_false_iff in E4. tauto. }
-    generalize (wrapped wrap r n). intros n1.
+    generalize (pad_braces valid equiv cur r (wrapped wrap r n)). intros n1.
     match goal with |- context [first_valid _ _ _ _ _ ?c] => set (choice := c) end.
     assert (Hc : exists n', In n' (candidates n1) /\ choice = splice Z cur r n').
     { unfold choice, candidates. destruct n1 as [|c n1].
@@ -875,4 +955,82 @@ Proof.
         apply (in_map (fun x => extra_indented x n1)). apply Hi. left. reflexivity.
       - apply IH. intros y Hy. apply Hi. right. exact Hy. }
     apply G. apply incl_refl.
+Qed.
+
+(* the brace padding changes nothing but two blanks around the replacement *)
+Theorem pad_braces_cases (valid : text -> bool) (equiv : text -> text -> bool) (src : text) (r : range) (n : text) :
+  pad_braces valid equiv src r n = n \/ pad_braces valid equiv src r n = SP :: n ++ [SP].
+Proof.
+  unfold pad_braces. destruct (_ || _); [|left; reflexivity].
+  destruct (_ && _); [right | left]; reflexivity.
+Qed.
+
+(* ======================================================================================== *)
+(* the scheduler's "touches an ignored line" is core.has_ignore_comment (IgnoreModel, C20)     *)
+(* ======================================================================================== *)
+Lemma terminated_term (body term : IgnoreModel.text) :
+  In term IgnoreProofs.TERMINATORS -> IgnoreModel.terminated (body ++ term) = true.
+Proof.
+  intros H. unfold IgnoreModel.terminated. rewrite rev_app_distr.
+  destruct H as [<-|[<-|[<-|[]]]]; reflexivity.
+Qed.
+
+(* only the last physical line can lack a terminator: such a line ends where the text ends *)
+Lemma unterminated_is_last (ls : list IgnoreModel.text) :
+  IgnoreProofs.py_lines ls -> forall pos r l,
+  In (r, l) (IgnoreModel.line_ranges pos ls) -> IgnoreModel.terminated l = false ->
+  snd r = (pos + Z.of_nat (length (concat ls)))%Z.
+Proof.
+  induction 1 as [|body Hb Hne|body term rest Hb Ht Hrest IH]; intros pos r l Hin Hterm.
+  - destruct Hin.
+  - cbn [IgnoreModel.line_ranges] in Hin. destruct Hin as [Hin|[]]. inversion Hin; subst.
+    cbn [snd concat]. rewrite app_nil_r. reflexivity.
+  - cbn [IgnoreModel.line_ranges] in Hin. destruct Hin as [Hin|Hin].
+    + inversion Hin; subst. rewrite terminated_term in Hterm by exact Ht. discriminate.
+    + apply IH in Hin; [|exact Hterm]. cbn [concat]. rewrite app_length. lia.
+Qed.
+
+Lemma existsb_ext_in' {A} (f g : A -> bool) (l : list A) :
+  (forall x, In x l -> f x = g x) -> existsb f l = existsb g l.
+Proof.
+  induction l as [|a l IH]; intros H; [reflexivity|].
+  cbn [existsb]. rewrite (H a (or_introl eq_refl)), IH; [reflexivity|].
+  intros x Hx. apply H. right. exact Hx.
+Qed.
+
+(* for every range of the text (insertion points included) the test the scheduler model applies to the lines
+   handed over by [sched_ilines] is IgnoreModel.has_ignore, the model of core.has_ignore_comment *)
+Theorem sched_ignored_is_has_ignore (src : text) (coms : option (list nat)) (r : range) :
+  (fst r <= snd r)%Z -> (snd r <= Z.of_nat (length src))%Z ->
+  ignored (sched_ilines src coms) r = IgnoreModel.has_ignore (to_n src) coms r.
+Proof.
+  intros Hle Hr. unfold ignored, sched_ilines, IgnoreModel.has_ignore. rewrite existsb_map.
+  apply existsb_ext_in'. intros e He.
+  pose proof (ignore_entry_ok src coms e He) as Hok.
+  unfold ignore_entries in He. destruct (IgnoreProofs.ignore_entries_in _ _ _ He) as [Hin _].
+  destruct e as [[ls le] l]. cbn [fst snd] in Hok.
+  unfold touches_line, IgnoreModel.touches, sched_line, overlaps. cbn [fst snd].
+  destruct (IgnoreModel.terminated l) eqn:Et.
+  - cbn [negb]. rewrite andb_false_r, orb_false_r. reflexivity.
+  - pose proof (unterminated_is_last _ (IgnoreProofs.split_lines_py_lines (to_n src)) 0%Z _ _ Hin Et) as Hend.
+    rewrite IgnoreProofs.split_lines_concat in Hend. unfold to_n in Hend. rewrite map_length in Hend.
+    cbn [snd] in Hend. cbn [negb]. rewrite andb_true_r.
+    destruct (fst r =? snd r)%Z eqn:Eq.
+    + apply Bool.eq_iff_eq_true.
+      rewrite orb_true_iff, !andb_true_iff, !Z.leb_le, !Z.ltb_lt, Z.eqb_eq. lia.
+    + apply Z.eqb_neq in Eq. apply Bool.eq_iff_eq_true.
+      rewrite !andb_true_iff, !Z.ltb_lt. lia.
+Qed.
+
+(* T14.5 restated on the recogniser itself: no scheduled rewrite is one that core.has_ignore_comment refuses *)
+Theorem scheduled_has_no_ignore (src : text) (coms : option (list nat)) (items : list (range * text)) :
+  Forall (fun it => range_ok (length src) (fst it)) items ->
+  forall e, In e (subn_sched_text src coms items) ->
+  IgnoreModel.has_ignore (to_n src) coms (rrng (snd e)) = false.
+Proof.
+  intros Hok e He.
+  pose proof (scheduled_from_items text text_eqb text_cmp (sched_ilines src coms) items e He) as Hin.
+  rewrite Forall_forall in Hok. specialize (Hok _ Hin). unfold range_ok in Hok. cbn [fst] in Hok.
+  rewrite <- sched_ignored_is_has_ignore by lia.
+  exact (scheduled_not_ignored text text_eqb text_cmp (sched_ilines src coms) items e He).
 Qed.
